@@ -40,6 +40,7 @@ TIERS = {
         orders={3: "all", 4: 3, 5: 2, 6: 2},
         sample={},
         traces=150,
+        scaled=dict(targets=[4_000_000], cases=["defined", "tn93:boundary"]),
     ),
     "thorough": dict(
         nj=["MC_NJ_quick3.cfg", "MC_NJ_quick4.cfg", "MC_NJ_thorough5.cfg", "MC_NJ_thorough5z.cfg",
@@ -51,6 +52,8 @@ TIERS = {
         orders={3: "all", 4: "all", 5: 3, 6: 3},
         sample={"MC_NJ_thorough6.cfg": 4000, "MC_NJ_thorough6z.cfg": 1500},
         traces=1500,
+        scaled=dict(targets=[1_000_000, 4_000_000, 10_000_000],
+                    cases=["defined", "defined2", "tn93:boundary", "tn93:outside", "jc69:boundary", "det:boundary"]),
     ),
 }
 SPEC_OF = {"nj": "NJ", "upgma": "UPGMA", "dist": "Distance", "calls": "DistanceCalls"}
@@ -175,6 +178,13 @@ def check(run: Run):
                 for i, ch in enumerate(chunks(recs, 1 + len(recs) // (NPROC * 3))):
                     job = (ch, run.seed * 104729 + i, run.tier, plan)
                     pending.append((kind, cfg, pool.apply_async(R.replay_distance, (job,))))
+                if "boundary" in cfg:  # ScaleInvariant on the real code: the same alignments at genome scale
+                    for case in conf["scaled"]["cases"]:
+                        pick = _pick_scaled(recs, case)
+                        if pick is None:
+                            raise MachineryError(f"{cfg}: no alignment for the large-count case {case}")
+                        for target in conf["scaled"]["targets"]:
+                            pending.append(("scaled", cfg, pool.apply_async(R.replay_scaled, ((pick, target),))))
                 mid = recs[len(recs) // 2]
                 run.sample({"spec": "Distance", "cfg": cfg, "seqs": ["".join(s) for s in mid["to"]["seqs"]],
                             "pairs": mid["to"]["pairs"][:1]})
@@ -188,6 +198,8 @@ def check(run: Run):
             st = stats[cfg]
             st["impl_calls"] = st.get("impl_calls", 0) + res[0]
             run.cov["traces_validated_against_impl"] += res[0]
+            if kind == "scaled":
+                st["large_count_calls"] = st.get("large_count_calls", 0) + res[0]
             if kind == "calls":
                 st["histories_not_reachable_on_the_real_object"] = st.get("histories_not_reachable_on_the_real_object", 0) + res[1]
             if kind == "dist":
@@ -224,9 +236,29 @@ def check(run: Run):
         "nan, raise ArithmeticError from distance_matrix(), be dropped by drop_invalid, and no matrix may hold inf",
         "NJ / UPGMA generators: <= 6 tips, lengths / heights from the cfg sets; the 6-tip NJ generators are replayed "
         "on a seeded sample in the thorough tier (TLC checks all of them)",
+        "large counts: the ScaleInvariant law is checked exactly by TLC for k in {2, 3}; on the real code the emitted "
+        "alignment is repeated to 10**6 .. 10**7 columns (string repetition, public entry points: the calculators and "
+        "Alignment.distance_matrix) for a few alignments per tier and must keep the small alignment's class and value",
         "gnj with its default keep (5n candidates) is compared only for n <= 5, where every topology is retained "
         "and the generator is the unique tree of minimal balanced length",
     ]
+
+
+def _pick_scaled(recs, case):
+    """first emitted two-sequence alignment (records are sorted) of the wanted domain class"""
+    for r in recs:
+        p = r["to"]["pairs"][0]
+        cls = p["cls"]
+        if case.startswith("defined"):
+            ok = all(v == "defined" for v in cls.values()) and p["diff"] > 0 and r["to"]["canonical"]
+            if ok and case == "defined2":
+                ok = p["total"] >= 12 and p["diff"] >= 4
+        else:
+            est, want = case.split(":")
+            ok = cls[est] == want
+        if ok:
+            return r
+    return None
 
 
 def _call(a):
